@@ -113,6 +113,10 @@ def run(ck, w):
     order_after_success(ck, o, db, locks, events_of(lib, db, "archive::Archive::list_band_ids") + events_of(lib, db, "archive::Archive::referenced_blocks") +
                         events_of(lib, db, "archive::Archive::block_dir"), "gc lock", "planning reads")
 
+    o = ck.ob("C06.1g", "delete_bands: the lock is released only after the last removal")
+    rel = events_of(lib, db, "gc_lock::GarbageCollectionLock::release")
+    rules.none_after(ck, o, db, rel, lambda e: e in removals, "removal")
+
     # ---- 2. backup side: first check ---------------------------------------------------------------
     bk = w.body("backup::backup")
     o = ck.ob("C06.2", "backup(): Band::create is reachable only after is_locked() returned false")
